@@ -267,3 +267,4 @@ PROPS['C14']['ext'] = dict(files=['X14'], targets=['Proofs/IterOnBoards.vo', 'Pr
 PROPS['C14']['miri'] = True
 PROPS['C19']['miri'] = True
 PROPS['C02']['miri'] = True
+PROPS['C11']['ext'] = dict(files=['X11'], targets=['Proofs/DrawScripts.vo'], stream=None, tags=[])
